@@ -873,6 +873,7 @@ class C03Check(StreamCheckBase):
         u = np.asarray(u, dtype=float)
         if np.isnan(u).any():
             ctx.probe("nan_utility_seen")
+            ctx.fault("corrupt_utility")
         if c > 1 and 0 < len(q) < c:
             ctx.probe("budget_exhausted_inside_chunk")
         obj = drv.obj
@@ -1305,7 +1306,7 @@ class C10Check(StreamCheckBase):
         "density filter accepted a later and rejected an earlier instance of one chunk. Distinct by (subject, manager, probe set, "
         "max chunk bucket, size bucket)."
     )
-    fault_kinds = ["rechunk", "clf_retrain", "corrupt_utility"]
+    fault_kinds = ["rechunk", "corrupt_utility"]
     probes_expected = ["budget_exhausted_inside_chunk", "filter_earlier_rejected_later_accepted", "chunk_gt_w", "invariance_compared", "protocol_checked"]
     assumptions = [
         "chunk invariance is only demanded for the managers/strategies named in the property and with the classifier held fixed over the stream",
@@ -1384,6 +1385,12 @@ class C10Check(StreamCheckBase):
                     ctx.fault("rechunk")
                     if 0 < len(q) < c:
                         ctx.probe("budget_exhausted_inside_chunk")
+                        qs_ = sorted(int(i) for i in q)
+                        if qs_[-1] > len(qs_) - 1:
+                            # an earlier instance of the chunk was refused, a later one granted
+                            ctx.probe("filter_earlier_rejected_later_accepted")
+                    if np.asarray(u, dtype=float).size and not np.isfinite(np.asarray(u, dtype=float)).all():
+                        ctx.fault("corrupt_utility")
                     if c > int((p.get("w") or 10**9)):
                         ctx.probe("chunk_gt_w")
             ql = [int(i) for i in q]
